@@ -121,7 +121,7 @@ Proof.
   destruct s as [ram kv pend]. cbn [gs_kv gs_pend gs_ram] in *. subst kv.
   destruct Hsh as [[Hp [Hram [Hcd HcT]]]|[b [Hp [Hram [Hcd' [Hcb HcT]]]]]]; subst pend ram.
   - (* no reservation pending *)
-    destruct op as [r0|r|ok|]; cbn [g_step gs_pend gs_ram gs_kv] in Hst; cbn [g_cost].
+    destruct op as [r0|r|ok| |]; cbn [g_step gs_pend gs_ram gs_kv] in Hst; cbn [g_cost].
     + rewrite g_get_or_init_live in Hst. inversion Hst; subst s' e; clear Hst.
       exists M, T. split; [|split; [lia|split; [lia|exact I]]].
       exists c, d. cbn [gs_kv gs_pend gs_ram]. split; [reflexivity|]. split; [exact HoM|]. split; [exact HMc|].
@@ -143,13 +143,17 @@ Proof.
       exists c, d. cbn [gs_kv gs_pend gs_ram]. split; [reflexivity|]. split; [exact HoM|]. split; [exact HMc|].
       left. repeat split; lia.
     + inversion Hst; subst s' e; clear Hst.
+      exists M, T. split; [|split; [lia|split; [lia|exact I]]].
+      exists c, d. cbn [gs_kv gs_pend gs_ram]. split; [reflexivity|]. split; [exact HoM|]. split; [exact HMc|].
+      left. repeat split; lia.
+    + inversion Hst; subst s' e; clear Hst.
       exists M, (T + 1000). split; [|split; [lia|split; [unfold G_EPOCH; lia|exact I]]].
       exists d, d. unfold g_init, g_load, g_resume, g_set. rewrite gring_neq0.
       cbn [gs_kv gs_pend gs_ram]. split; [reflexivity|]. split; [exact HoM|]. split; [lia|].
       left. repeat split; lia.
   - (* a reservation is pending *)
     subst d.
-    destruct op as [r0|r|ok|]; cbn [g_step gs_pend gs_ram gs_kv] in Hst; cbn [g_cost].
+    destruct op as [r0|r|ok| |]; cbn [g_step gs_pend gs_ram gs_kv] in Hst; cbn [g_cost].
     + rewrite g_get_or_init_live in Hst. inversion Hst; subst s' e; clear Hst.
       exists M, T. split; [|split; [lia|split; [lia|exact I]]].
       exists c, c. cbn [gs_kv gs_pend gs_ram]. split; [reflexivity|]. split; [exact HoM|]. split; [exact HMc|].
@@ -166,6 +170,10 @@ Proof.
       * exists M, T. split; [|split; [lia|split; [lia|exact I]]].
         exists c, c. cbn [gs_kv gs_pend gs_ram]. split; [reflexivity|]. split; [exact HoM|]. split; [exact HMc|].
         left. unfold g_unreserve, g_set. repeat split; lia.
+    + inversion Hst; subst s' e; clear Hst.
+      exists M, T. split; [|split; [lia|split; [lia|exact I]]].
+      exists c, c. cbn [gs_kv gs_pend gs_ram]. split; [reflexivity|]. split; [exact HoM|]. split; [exact HMc|].
+      right. exists b. repeat split; lia.
     + inversion Hst; subst s' e; clear Hst.
       exists M, (T + 1000). split; [|split; [lia|split; [unfold G_EPOCH; lia|exact I]]].
       exists c, c. unfold g_init, g_load, g_resume, g_set. rewrite gring_neq0.
@@ -196,7 +204,7 @@ Proof.
   intros s op cr s' e [Hkv Hsh] _ Hst.
   destruct s as [ram kv pend]. cbn [gs_kv gs_pend gs_ram] in *. subst kv.
   destruct Hsh as [[Hp [Heq Hle]]|[c [b [Hp [Hram [Hcb Hcr]]]]]]; subst pend.
-  - destruct op as [r0|r|ok|]; cbn [g_step gs_pend gs_ram gs_kv] in Hst; cbn [g_cost].
+  - destruct op as [r0|r|ok| |]; cbn [g_step gs_pend gs_ram gs_kv] in Hst; cbn [g_cost].
     + left. destruct (g_seeded_value ram r0 Heq Hle) as [p Hseed]. rewrite Hseed in Hst.
       inversion Hst; subst s' e; clear Hst.
       exists cr. split; [|split; [lia|discriminate]].
@@ -215,9 +223,12 @@ Proof.
       split; [reflexivity|]. left. cbn [gs_pend gs_ram]. repeat split; assumption.
     + left. inversion Hst; subst s' e; clear Hst.
       exists cr. split; [|split; [lia|discriminate]].
+      split; [reflexivity|]. left. cbn [gs_pend gs_ram]. repeat split; assumption.
+    + left. inversion Hst; subst s' e; clear Hst.
+      exists cr. split; [|split; [lia|discriminate]].
       split; [reflexivity|]. left. cbn. repeat split; unfold G_MASK; lia.
   - subst ram.
-    destruct op as [r0|r|ok|]; cbn [g_step gs_pend gs_ram gs_kv] in Hst; cbn [g_cost].
+    destruct op as [r0|r|ok| |]; cbn [g_step gs_pend gs_ram gs_kv] in Hst; cbn [g_cost].
     + left. rewrite g_get_or_init_live in Hst. inversion Hst; subst s' e; clear Hst.
       exists cr. split; [|split; [lia|discriminate]].
       split; [reflexivity|]. right. exists c, b. cbn [gs_pend gs_ram]. repeat split; lia.
@@ -232,6 +243,9 @@ Proof.
       * left. exists cr. split; [|split; [lia|discriminate]].
         split; [reflexivity|]. left. unfold g_unreserve, g_set. cbn [gs_pend gs_ram g_ctr g_bnd].
         pose proof (gring_range c). repeat split; lia.
+    + left. inversion Hst; subst s' e; clear Hst.
+      exists cr. split; [|split; [lia|discriminate]].
+      split; [reflexivity|]. right. exists c, b. cbn [gs_pend gs_ram]. repeat split; lia.
     + left. inversion Hst; subst s' e; clear Hst.
       exists cr. split; [|split; [lia|discriminate]].
       split; [reflexivity|]. left. cbn. repeat split; unfold G_MASK; lia.
